@@ -17,7 +17,9 @@ RULE = ("Rule-based state machine holding one problem (1-2 surveys, default or c
         "fresh or the persistent helper; rejection_sample with equal seeds across execution paths, batchings and a "
         "MultiPool; direct posterior draws on extreme rows; dill round trip of the helper; MultiPool(2-3) likelihoods. "
         "Oracle after every step: probe likelihoods bit-identical to those of a fresh helper evaluating the whole "
-        "library once, in input order; identical accepted sets across paths for equal seeds. A history is non-trivial "
+        "library once, in input order; identical accepted sets across paths for equal seeds. A second search stores "
+        "the library in other units (yr / h / min, deg, m/s ...) and compares in-memory, cache and file paths within the "
+        "effect of a 4-ulp change of the stored values. A history is non-trivial "
         "when a posterior draw or an extreme row preceded a probe and at least two different paths/batchings were "
         "compared.")
 SHARDS = {"quick": 4, "thorough": 16}
@@ -211,11 +213,64 @@ def machine_factory(ctx):
         def finish(self):
             if not self.ready:
                 return
+            # closing probe after the whole history: two different paths / batchings on the complete library
+            self.do_mll("mem", 0, 1, True)
+            self.do_mll("cache", 1, 3, False)
             nt = self.stress_before_probe and len(self.paths_used) >= 2
             ctx.note_case(self.log, nt, sorted(set(self.kinds)) + ["distinct probe values=%s" % ("all" if self.distinct == self.n else "some ties")])
 
     return Paths
 
 
+# ----------------------------------------------------------------------------- libraries stored in other units
+@st.composite
+def unit_cases(draw):
+    spec = draw(gens.problems(max_surveys=2, max_epochs=8, max_poly=2, n_rows=(4, 16), units=True))
+    spec["n_batches"] = draw(st.integers(1, 6))
+    spec["sub_seed"] = draw(st.integers(0, 10**6))
+    return spec
+
+
+def unit_body_factory(ctx):
+    import astropy.units as u
+
+    import thejoker as tj
+
+    def body(spec):
+        data = gens.build_data(spec)
+        prior = gens.build_prior(spec["prior"])
+        lib = gens.build_samples(spec)
+        n = len(lib)
+        joker = tj.TheJoker(prior)
+        with ctx.sut("marginal_ln_likelihood (in memory)"):
+            base = np.asarray(joker.marginal_ln_likelihood(data, lib, in_memory=True), dtype=float)
+            # how much a 4-ulp change of the stored values moves the result (the paths convert units by
+            # different but equivalent routes: Quantity.to_value vs. value * factor)
+            pert = tj.JokerSamples(poly_trend=lib.poly_trend, n_offsets=lib.n_offsets)
+            for nm in lib.par_names:
+                pert[nm] = lib[nm] * (1 + 8.9e-16) if nm != "e" else lib[nm]
+            moved = np.asarray(joker.marginal_ln_likelihood(data, pert, in_memory=True), dtype=float)
+        tol = 4 * np.abs(moved - base) + 1e-9 * (1 + np.abs(base))
+        g = np.random.default_rng(spec["sub_seed"])
+        idx = g.permutation(n)[: int(g.integers(1, n + 1))]
+        sub = lib[idx]
+        fn = os.path.join(ctx.workdir, "c05units.hdf5")
+        sub.write(fn, overwrite=True)
+        with ctx.sut("marginal_ln_likelihood (cache / file)"):
+            a = np.asarray(joker.marginal_ln_likelihood(data, sub, n_batches=spec["n_batches"]), dtype=float)
+            b = np.asarray(joker.marginal_ln_likelihood(data, fn, n_batches=max(1, spec["n_batches"] // 2)), dtype=float)
+        for what, got in (("object through the cache file", a), ("file name", b)):
+            if got.shape != (len(idx),) or np.any(np.abs(got - base[idx]) > tol[idx]):
+                raise Violation("likelihoods of a library stored in other units differ between the in-memory path and the "
+                                "%s path" % what, units=spec["row_units"], in_memory=base[idx][:6], other=got[:6],
+                                allowed=tol[idx][:6])
+        ru = spec["row_units"]
+        nt = ru["P"] != "d" or ru["omega"] != "rad" or ru["M0"] != "rad" or ru["s"] is not None
+        ctx.note_case(spec, nt, ["units:P=" + ru["P"], "units:angles=%s/%s" % (ru["omega"], ru["M0"]), "units:n_batches=%d" % min(spec["n_batches"], 3)])
+
+    return body
+
+
 def run(ctx):
+    ctx.search("unit_paths", unit_cases(), unit_body_factory(ctx), quick=240, thorough=6000)
     ctx.machine("paths", lambda: machine_factory(ctx), quick=160, thorough=3200, steps_quick=16, steps_thorough=40)
